@@ -1,0 +1,17 @@
+//go:build verif
+
+package resources
+
+import quotaResource "lunar/engine/streams/resources/quota"
+
+// VerifObserveQuotas reads every quota's counters the way the quota-used
+// metric callback does.
+func (rm *ResourceManagement) VerifObserveQuotas() map[string]int64 {
+	out := map[string]int64{}
+	for _, quota := range rm.quotas.GetAll() {
+		for k, v := range quotaResource.VerifObserveQuotaUsed(quota) {
+			out[k] = v
+		}
+	}
+	return out
+}
